@@ -76,7 +76,7 @@ type Contracts struct {
 
 var clauseKw = map[string]bool{"requires": true, "ensures": true, "modifies": true, "loop": true, "ghost": true, "order": true,
 	"unreachable": true, "props": true, "inline": true, "trusted": true, "ensures_on_panic": true, "publishes": true, "assert": true,
-	"invariant": true, "guarded_by": true, "frozen": true, "concurrent": true, "b2_safety": true, "holds": true, "reads": true, "atomic": true, "immutable": true, "apply": true, "induct": true, "inlines": true, "pool": true, "contains_panics": true, "rely": true, "dead_loop": true, "callee_frame": true, "decreases": true}
+	"invariant": true, "guarded_by": true, "frozen": true, "concurrent": true, "b2_safety": true, "jsontag": true, "holds": true, "reads": true, "atomic": true, "immutable": true, "apply": true, "induct": true, "inlines": true, "pool": true, "contains_panics": true, "rely": true, "dead_loop": true, "callee_frame": true, "decreases": true}
 
 var labelRe = regexp.MustCompile(`^\[([A-Za-z0-9_.:@\-]+)\]\s*`)
 
